@@ -2,7 +2,7 @@
    Model: ArgStore.step (the algorithms of config.py / signatures.py on __arguments__).
    Specification: ArgSpec.spec_step (fixed-length prefix + Python list + dict), related by ArgSpec.abs.
    This file contains statements only; proofs live in theories/ArgStore_proofs.v. *)
-From Fiddle Require Import PyBase PySlice Sig ArgStore ArgSpec ArgStore_proofs Anchors.
+From Fiddle Require Import PyBase PySlice Sig ArgStore ArgSpec ArgStore_proofs AnchorsEdit.
 
 (* Invalid edits raise and leave the reported arguments unchanged (on the specification). *)
 Theorem C03_errors_frame :
